@@ -187,15 +187,21 @@ P = {
        "back to the exported Dump() text (parent links then unchecked).",
   ref="DESIGN.md section 5 C06"),
  "C10": dict(
-  text="26 Lean theorems about the executable byte-level model of CmdLine.Parse (option table construction, three-state "
-       "scanner, rune-aware short-option loop, @file expansion with the seen guard, typed Set for bool/integer/string kinds): "
-       "parse_render for every valid spelling and arbitrary rune names, positional_tail_verbatim, unmentioned_untouched, "
-       "last_assignment_wins, slice_appends, response_split / response_inline, malformed_fatal. Each line declares options "
-       "over all 28 pointer types; possibly-malformed vectors run in a child process and the exit path is observed.",
+  text="33 Lean theorems about the executable byte-level model of CmdLine.Parse (option table construction through every "
+       "declaration route, three-state scanner incl. the lone '-' as first positional, rune-aware short-option loop, @file "
+       "expansion with the seen guard) and of the OPTION VARIABLES (setVar: a case-by-case transcription of GeneralValue.Set - "
+       "ParseBool's table, all ten integer kinds through the model's own base-0 parser with prefixes, underscore rule and the "
+       "kind's bit size, strings, slices appending - threaded as a store the driver prints): parse_render for every valid "
+       "spelling and arbitrary rune names, positional_tail_verbatim, bare_dash_is_first_positional, set_semantics, "
+       "variable_is_fold_of_its_sets, scalar_last_successful_set / last_assignment_wins, slice_appends, unmentioned_untouched, "
+       "variables_after_parse, response_split / response_inline, malformed_fatal. Each line declares options over all 28 "
+       "pointer types; possibly-malformed vectors run in a child process and the exit path is observed.",
   note="float and duration acceptance is taken from strconv/time results computed by the generator (parameter of the model); "
-       "not claimed (Appendix B): a first positional that starts with '-' or '@' without '--', a response-file reference in "
-       "value position, response-file lines with newlines/CR/over 64 KiB.",
-  ref="DESIGN.md section 5 C10"),
+       "a first positional that starts with '-' (other than a lone '-') or with '@' without a preceding '--' is an option or "
+       "response file by construction; an @file reference in value position is taken literally (observation); response-file "
+       "lines of 64 KiB or more and arguments containing LF are outside the domain; response_split requires FilesNoRef over "
+       "all files (stronger than needed).",
+  ref="DESIGN.md section 5 C10, section 0"),
  "C12": dict(
   text="35 Lean theorems about the state machine of rotation.Rotator (Write with its retry as a step function, the rename "
        "chain, Close, re-open with size from Stat, New with options and regenerated defaults, histories in segments each with "
